@@ -217,7 +217,10 @@ func valid(pc pcase) bool {
 			}
 		}
 	}
-	if pc.SubOn && len(pc.Sub) == 0 && !pc.SubNotes {
+	if pc.SubOn && len(pc.Sub) == 0 && !pc.SubNotes && !(locs["sub-top"] || locs["sub-nested"]) {
+		return false
+	}
+	if !pc.SubOn && (locs["sub-top"] || locs["sub-nested"]) {
 		return false
 	}
 	return true
@@ -548,7 +551,7 @@ func runPartition(c *core.Ctx) {
 
 	full := []int{dCM, dSvc, dNS, dDep, dWidget, dHook, dHookU, dHookKU, dHookKK, dHookW, dComment, dBlank, dKeep, dCMTail, dHookTail}
 	if thorough {
-		full = append(full, dGadget, dHookUK, dWsBlank, dAnno, dCMKeep, dIndent, dHookEmpty, dHookNull)
+		full = append(full, dGadget, dHookUK, dWsBlank, dAnno, dCMKeep, dIndent) // empty-valued hook annotations: sub-part H
 	}
 	r8 := []int{dCM, dSvc, dNS, dWidget, dHook, dHookU, dComment, dKeep}
 	r5 := []int{dCM, dSvc, dWidget, dHook, dHookU}
@@ -786,7 +789,7 @@ func runPartition(c *core.Ctx) {
 		})
 		two := []int{dCM, dSvc, dDep, dWidget}
 		if thorough {
-			two = alpha
+			two = []int{dCM, dSvc, dNS, dDep, dWidget, dKeep, dHook, dHookU}
 		}
 		as := fileVariants("templates/a.yaml", two, 1, 2, []int{jPlain}, no, no, no)
 		bs := fileVariants("templates/b.yaml", two, 1, 2, []int{jPlain}, no, no, no)
